@@ -180,6 +180,16 @@ impl ExtMetadataBlock {
         }
     }
 
+    /// Validates the variable block lengths, which `required_bits` depends on
+    pub fn validate_length(&self) -> Result<()> {
+        match self {
+            ExtMetadataBlock::Level8(b) => b.validate(),
+            ExtMetadataBlock::Level9(b) => b.validate(),
+            ExtMetadataBlock::Level10(b) => b.validate(),
+            _ => Ok(()),
+        }
+    }
+
     pub fn validate_correct_dm_data<T: WithExtMetadataBlocks>(&self) -> Result<()> {
         let level = self.level();
 
